@@ -407,7 +407,7 @@ pub fn run(tier: Tier, seed: u64, findings: &Findings) -> i32 {
     let cfg = RunCfg { prop: "C20", tier, seed };
     let check = C20 { tier };
     let mut report = super::run_regress(&check, &cfg, findings);
-    let cases = tier.pick(3000, 60_000);
+    let cases = tier.pick(5000, 60_000);
     report.merge(engine::run_generated(&check, &cfg, cases, 4, 16, findings, 0));
     engine::finish(
         Finish {
